@@ -17,7 +17,7 @@ stated for what the code averages:
 
 Every γ > 1, D ≠ 0, p_cj > 0.  The oracle checks `c² = γ p / ρ` on the real code to O(dx²).
 -/
-import EPV.Lemmas.Mader
+import EPV.Lemmas.MaderProfile
 import Mathlib.MeasureTheory.Integral.IntervalIntegral.FundThmCalculus
 
 set_option linter.all false
@@ -28,11 +28,6 @@ namespace EPV.C03
 
 noncomputable section
 
-/-- point profile of the Taylor wave in the coordinate of `rare` -/
-def maderP (p : MaderRare.P) (time X : ℝ) : ℝ := p.p_cj * Y p time X ^ bexp p
-def maderR (p : MaderRare.P) (time X : ℝ) : ℝ := rhocj p * Y p time X ^ dexp p
-def maderC (p : MaderRare.P) (time X : ℝ) : ℝ := ccj p * Y p time X
-
 /-- `c_cj² ρ_cj = γ p_cj` -/
 theorem mader_cj_eos (p : MaderRare.P) (hγ : 1 < p.gam) (hD : p.d_cj ≠ 0) :
     ccj p ^ 2 * rhocj p = p.gam * p.p_cj := by
@@ -41,11 +36,11 @@ theorem mader_cj_eos (p : MaderRare.P) (hγ : 1 < p.gam) (hD : p.d_cj ≠ 0) :
   simp only [ccj, rhocj, rho0]
   field_simp
 
-theorem bexp_sub_dexp (p : MaderRare.P) (hγ : 1 < p.gam) : dexp p + 2 = bexp p := by
+theorem mader_bexp_sub_dexp (p : MaderRare.P) (hγ : 1 < p.gam) : dexp p + 2 = bexp p := by
   have h1 : p.gam - 1 ≠ 0 := by linarith
   simp only [bexp, dexp]; field_simp; ring
 
-theorem dexp_mul_gam (p : MaderRare.P) (hγ : 1 < p.gam) : dexp p * p.gam = bexp p := by
+theorem mader_dexp_mul_gam (p : MaderRare.P) (hγ : 1 < p.gam) : dexp p * p.gam = bexp p := by
   have h1 : p.gam - 1 ≠ 0 := by linarith
   simp only [bexp, dexp]; field_simp
 
@@ -55,7 +50,7 @@ theorem mader_profile_eos (p : MaderRare.P) (time X : ℝ) (hγ : 1 < p.gam) (hD
     maderC p time X ^ 2 * maderR p time X = p.gam * maderP p time X := by
   unfold maderC maderR maderP
   have e : Y p time X ^ 2 * Y p time X ^ dexp p = Y p time X ^ bexp p := by
-    rw [← Real.rpow_two, ← Real.rpow_add hy, add_comm, bexp_sub_dexp p hγ]
+    rw [← Real.rpow_two, ← Real.rpow_add hy, add_comm, mader_bexp_sub_dexp p hγ]
   have := mader_cj_eos p hγ hD
   calc (ccj p * Y p time X) ^ 2 * (rhocj p * Y p time X ^ dexp p)
       = (ccj p ^ 2 * rhocj p) * (Y p time X ^ 2 * Y p time X ^ dexp p) := by ring
@@ -66,7 +61,7 @@ theorem mader_profile_isentrope (p : MaderRare.P) (time X : ℝ) (hγ : 1 < p.ga
     (hρ : rhocj p ≠ 0) (hy : 0 < Y p time X) :
     maderP p time X / p.p_cj = (maderR p time X / rhocj p) ^ p.gam := by
   unfold maderP maderR
-  rw [mul_div_cancel_left₀ _ hp, mul_div_cancel_left₀ _ hρ, ← Real.rpow_mul hy.le, dexp_mul_gam p hγ]
+  rw [mul_div_cancel_left₀ _ hp, mul_div_cancel_left₀ _ hρ, ← Real.rpow_mul hy.le, mader_dexp_mul_gam p hγ]
 
 /-- the returned fan pressure and density are the exact cell averages of the profile, and the
 returned sound speed is the profile at the cell centre -/
@@ -124,9 +119,9 @@ theorem mader_plateau_eos (p : MaderRare.P) (xlab time : ℝ) (hγ : 1 < p.gam) 
     ← Real.rpow_mul hz.le]
   have hg : p.gam ≠ 0 := by linarith
   have e1 : bexp p * (1 / p.gam) = dexp p := by
-    rw [← dexp_mul_gam p hγ]; field_simp
+    rw [← mader_dexp_mul_gam p hγ]; field_simp
   have e : Z p ^ 2 * Z p ^ dexp p = Z p ^ bexp p := by
-    rw [← Real.rpow_two, ← Real.rpow_add hz, add_comm, bexp_sub_dexp p hγ]
+    rw [← Real.rpow_two, ← Real.rpow_add hz, add_comm, mader_bexp_sub_dexp p hγ]
   have := mader_cj_eos p hγ hD
   rw [e1]
   calc (ccj p * Z p) ^ 2 * (rhocj p * Z p ^ dexp p)
